@@ -272,7 +272,7 @@ def generate():
             "Definition pure_scope : list (nat * nat * nat) := %s." % scope_list(p.ode_entries),
             "Definition pure_res : list nat := %s." % nl(p_res),
             ""])
-    except Unsupported as u:
+    except (Unsupported, ValueError, TypeError, IndexError, KeyError, AttributeError, AssertionError, RecursionError) as u:   # any surprise in the source = fail closed
         return (failed("AssemblyGen", str(u)) +
                 "From Coq Require Import List. Import ListNotations.\nFrom PV Require Import Assembly Reactant.\n"
                 "Definition reactant_tab : list sentry := [].\n"
